@@ -183,7 +183,7 @@ def plan_C08(b, tier, seed):
     return [A_poly(b, "f5", "arith", 4, 4, 8), A_poly(b, "f7", "arith", 3, 4, 8), A_poly(b, "f17", "arith", 2, 4, 8), A_poly(b, "f97", "arith", 2, 4, 8),
             A_poly(b, "f5", "unary", 5, 4), A_poly(b, "f17", "unary", 3, 16, 8), A_poly(b, "f97", "unary", 2, 12, 8), A_poly(b, "f13", "unary", 4, 4),
             A_poly(b, "f7", "unary", 4, 6), A_poly(b, "f37", "unary", 2, 12, 8), A_poly(b, "f12289", "polybig", 0, 1030, 8), A_poly(b, "f40961", "polybig", 0, 300, 8)] + \
-           [B_polybig(b, c, seed + 100 + k, 250, 13, timeout=3000) for c in ("bls12_381_fr", "bn384_fq", "mnt4_753_fr", "secp256k1_fr") for k in range(2)]
+           [B_polybig(b, c, seed + 100 + k, n, ml, timeout=3000) for (c, n, ml) in (("bls12_381_fr", 250, 13), ("bn384_fq", 200, 12), ("mnt4_753_fr", 60, 11), ("secp256k1_fr", 250, 13)) for k in range(2)]
 
 def plan_C07(b, tier, seed):
     if tier == "quick":
@@ -192,7 +192,7 @@ def plan_C07(b, tier, seed):
                 B_polybig(b, "bls12_381_fr", seed, 70, 12), B_polybig(b, "bn384_fq", seed, 50, 10), B_polybig(b, "secp256k1_fr", seed, 40, 8), B_polybig(b, "fp128_fq", seed, 40, 11)]
     return [A_poly(b, c, "domain", 0, n, 8) for (c, n) in [("f17", 16), ("f97", 48), ("f13", 12), ("f37", 36), ("f257", 64), ("f101", 50),
                                                             ("f193", 64), ("f577", 64), ("f12289", 64), ("f18433", 48), ("f40961", 40)]] + \
-           [B_polybig(b, c, seed + k, 250, 13, timeout=3000) for c in ("bls12_381_fr", "bn384_fq", "mnt4_753_fr", "secp256k1_fr", "fp128_fq") for k in range(2)]
+           [B_polybig(b, c, seed + k, n, ml, timeout=3000) for (c, n, ml) in (("bls12_381_fr", 250, 13), ("bn384_fq", 200, 12), ("mnt4_753_fr", 60, 11), ("secp256k1_fr", 250, 13), ("fp128_fq", 250, 13)) for k in range(2)]
 
 def plan_C11(b, tier, seed):
     t = []
